@@ -263,7 +263,10 @@ func (e *Engine) SetLongest(longest bool) {
 func (e *Engine) searchStrategy() Strategy {
 	if e.longest {
 		switch e.strategy {
-		case UseReverseSuffix, UseReverseSuffixSet, UseReverseInner, UseDigitPrefilter, UseMultilineReverseSuffix:
+		case UseReverseSuffix, UseReverseSuffixSet, UseReverseInner, UseDigitPrefilter, UseMultilineReverseSuffix,
+			UseTeddy, UseAhoCorasick:
+			// (the literal engines report the first alternative that matches at the leftmost position,
+			// not the longest one: mon|month)
 			return UseNFA
 		}
 	}
